@@ -261,11 +261,21 @@ def gen_input(r, p, expr_p=0.5, big=False):
             return ["bytesE", bs.hex(), r.choice(["arg", "bytes"])]
         return ["bytesC", bs.hex(), r.choice(["str", "bytes"])]
     if k == "sa":
-        return ["seq"] + [gen_input(r, p[2], expr_p, big) for _ in range(p[1])]
+        return ["seq"] + _repeat_siblings(r, [p[2]] * p[1], [gen_input(r, p[2], expr_p, big) for _ in range(p[1])])
     if k == "da":
         n = r.choice([0, 1, 2, 3, 7, 8, 9, 16, 17]) if p[1] == ["bool"] else r.choice([0, 1, 2, 3, 5])
-        return ["seq"] + [gen_input(r, p[1], expr_p, big) for _ in range(n)]
-    return ["seq"] + [gen_input(r, x, expr_p, big) for x in p[1:]]
+        return ["seq"] + _repeat_siblings(r, [p[1]] * n, [gen_input(r, p[1], expr_p, big) for _ in range(n)])
+    return ["seq"] + _repeat_siblings(r, list(p[1:]), [gen_input(r, x, expr_p, big) for x in p[1:]])
+
+
+def _repeat_siblings(r, types, kids):
+    """sometimes a later sibling of the same type repeats an earlier one (the Builder then passes the SAME instance twice)"""
+    if len(kids) >= 2 and r.random() < 0.3:
+        for j in range(1, len(kids)):
+            same = [k for k in range(j) if types[k] == types[j]]
+            if same and r.random() < 0.5:
+                kids[j] = json.loads(json.dumps(kids[r.choice(same)]))
+    return kids
 
 
 def inject_fault(r, p, i):
@@ -418,10 +428,17 @@ class Builder:
             stmts.append(inst.set(self.bexpr(i)))
         else:
             cts = children_types(p, len(i) - 1)
-            kids = []
+            kids, seen = [], {}
             for c, x in zip(cts, i[1:]):
+                key = json.dumps([c, x])
+                if getattr(self, "alias", False) and key in seen:
+                    # one instance passed twice to the same set(...): same value, same encoding expected
+                    kids.append(seen[key])
+                    self.n_alias = getattr(self, "n_alias", 0) + 1
+                    continue
                 kid = self.w.instance(c)
                 self.fill(kid, c, x, stmts)
+                seen[key] = kid
                 kids.append(kid)
             if p[0] in ("tup", "nt"):
                 stmts.append(inst.set(*kids))
@@ -979,7 +996,9 @@ def run(tier: str) -> int:
             i = gen_input(r, p, expr_p=r.choice([0.0, 0.5, 0.5, 1.0]), big=(r.random() < 0.15))
             leaf_stats(i, stats["leaves"])
             tagno += 1
+            b.alias = r.random() < 0.6
             run_case(rep, drv, pt, b, p, i, None, configs_for(r, p, world, thorough), stats, samples, tagno)
+            stats["instances passed twice to one set()"] = getattr(b, "n_alias", 0)
             if j == 0 and r.random() < (0.6 if thorough else 0.5):
                 f = inject_fault(r, p, i)
                 if f is not None:
